@@ -3,6 +3,7 @@ import QipVerif.Lemmas.EmbedCount
 import QipVerif.Lemmas.EmbedAlg
 import QipVerif.Lemmas.EmbedFlatTop
 import QipVerif.Lemmas.EmbedArgs
+import QipVerif.Lemmas.EmbedObj
 /-!
 # C08 — operator embedding places an operator on exactly the requested subsystems
 
@@ -412,6 +413,53 @@ example : expandArgs ⟨none, some [2, 2, 2], .list [-1], [2], [2], true⟩
       = .ok [([2, 2, 2], [2]), ([2, 2, 2], [0]), ([2, 2, 2], [1])]
     ∧ expandArgs ⟨none, some [2, 3, 2], .list [0], [2], [2], true⟩ = .error (.val .dims)
     ∧ expandArgs ⟨none, some [2, 2, 2], .list [-1], [2], [2], false⟩ = .error (.val .index) := by decide
+
+
+/-! ### Objects that embed on demand (`Model/EmbedObj.lean`): `_EvoElement` behind `Pulse` / `Drift`
+
+The observation points `Pulse.get_ideal_qobj(dims)`, `get_ideal_qobjevo`, `get_noisy_qobjevo`,
+`Drift.get_ideal_qobjevo` reach `expand_operator` through mutable objects. -/
+
+open QipVerif.EmbedArgs QipVerif.EmbedObj in
+/-- **The answer depends on the current fields only**: after any history of re-assignments of targets and
+operators and of earlier requests (with any `dims`), the operators returned for `dims` are those of
+freshly built elements carrying the current fields. -/
+theorem history_get_current (es : List Elem) (ops : List Op) (d : DArg) :
+    run es (ops ++ [.get d]) = run es ops ++ [(ops.foldl applyOp es).map (answer d)] := by
+  rw [run_append]; rfl
+
+open QipVerif.EmbedArgs QipVerif.EmbedObj in
+-- a pulse evaluated, re-targeted (order of two targets exchanged), evaluated again with the same dims
+example : run [⟨some [2, 2], .list [0, 1], 7⟩]
+      [.get (.list [2, 2, 3]), .setTargets 0 (.list [1, 0]), .get (.list [2, 2, 3]), .setOper 0 none 8, .get (.int 2)]
+    = [[(.ok ([2, 2, 3], [0, 1]), 7)], [(.ok ([2, 2, 3], [1, 0]), 7)], [(.ok ([2, 2], [0]), 8)]] := by decide
+
+open QipVerif.EmbedArgs QipVerif.EmbedObj in
+/-- every operator such an element returns is a well-formed placement of its current operator at its
+current targets on the register `dims` (`[2]*dims` for an integer) — the case of `flat_eq_spec`. -/
+theorem elem_get_sound (od : List Nat) (t : TArg) (d : DArg) (reg nn : List Nat)
+    (oid : Nat) (h : elemGet ⟨some od, t, oid⟩ d = .ok (reg, nn)) :
+    reg = d.dims ∧ validate d.dims (resolveTargets ⟨none, some d.dims, t, od, od, false⟩) od = .ok nn := by
+  unfold elemGet at h
+  simp only at h
+  cases he : expandArgs ⟨none, some d.dims, t, od, od, false⟩ with
+  | error e => simp [he] at h
+  | ok rs =>
+    obtain ⟨N, dims, reg', nn', hs, hrs, hreg, hN, _, hv⟩ := args_sound _ rs rfl he
+    simp only [resolveSize, Except.ok.injEq, Prod.mk.injEq] at hs
+    obtain ⟨hN', hd'⟩ := hs
+    subst hrs
+    simp only [he, Except.ok.injEq, Prod.mk.injEq] at h
+    obtain ⟨h1, h2⟩ := h
+    subst h1 h2 hd' hN'
+    have : reg' = d.dims := by rw [hreg, List.take_length]
+    subst this
+    exact ⟨rfl, hv⟩
+
+open QipVerif.EmbedArgs QipVerif.EmbedObj in
+example : elemGet ⟨some [3], .int 2, 0⟩ (.list [2, 2, 3]) = .ok ([2, 2, 3], [2])
+    ∧ elemGet ⟨some [3], .int 1, 0⟩ (.list [2, 2, 3]) = .error (.val .dims)
+    ∧ elemGet ⟨none, .none, 0⟩ (.list [3, 2]) = .ok ([3, 2], [0]) := by decide
 
 /-! ### The same placement as an operator on `(ℂ²)^{⊗N}` (used by C01, C03, C05, C07) -/
 
